@@ -731,7 +731,12 @@ impl Rt {
                         location: x.location.clone(),
                     });
                 }
-                Item::Use(_) => {}
+                Item::Use(x) => {
+                    return Err(RegistrationError {
+                        message: "Cannot nest a use in an impl".into(),
+                        location: x.location.clone(),
+                    });
+                }
                 Item::Constant(_) => {}
             }
         }
